@@ -74,6 +74,35 @@ def build_hex(cfg):
     return x, y, ap
 
 
+def claim_driver_cases(cfg, x, y, ap, rng, nsamp):
+    """per-sample ownership: the polygon mask of EVERY segment (the very `regular_polygon` call of the source, embedded in the full
+    grid, construction order) at samples covered by two or more polygons (all of them, up to nsamp), by one, by none ->
+    driver lines `claim` + what the real aperture stored (local masks, amp) at those samples"""
+    sg, ge = _impl()[:2]
+    rseg = (cfg['D'] * sg.FLAT_TO_FLAT_TO_VERTEX_TO_VERTEX) / 2
+    raw, stored = [], []
+    for c, win, m in zip(ap.all_centers, ap.windows, ap.local_masks):
+        e = np.zeros(x.shape, dtype=bool)
+        s_ = np.zeros(x.shape, dtype=bool)
+        if x[win].size:
+            e[win] = ge.regular_polygon(6, rseg, x[win], y[win], center=tuple(c), rotation=cfg['rot'])
+            s_[win] = m
+        raw.append(e)
+        stored.append(s_)
+    if not raw:
+        return [], []
+    raw, stored = np.array(raw), np.array(stored)
+    cover = raw.sum(0)
+    pick = []
+    for sel, k in ((cover >= 2, nsamp), (cover == 1, max(2, nsamp // 3)), (cover == 0, 2)):
+        w = np.argwhere(sel)
+        if len(w):
+            pick += [tuple(int(v) for v in w[j]) for j in rng.choice(len(w), size=min(k, len(w)), replace=False)]
+    lines = [' '.join(['claim'] + ['1' if raw[k, i, j] else '0' for k in range(len(raw))]) for i, j in pick]
+    jobs = [((i, j), [bool(stored[k, i, j]) for k in range(len(raw))], bool(ap.amp[i, j]), int(cover[i, j])) for i, j in pick]
+    return lines, jobs
+
+
 def hexap_line(cfg, dx):
     ny, nx = cfg['shape']
     ex = cfg['exclude']
@@ -288,6 +317,79 @@ KEY_TOUCH = [
     {'n': 255, 'diameter': 7.96875, 'ccd': 1.5, 'rings': 2, 'spr': [8, 8], 'ring_radius': 1.25, 'gap': 0.0, 'rotation': [45.0, 0.0]},
     {'n': 64, 'diameter': 8.0, 'ccd': 2.0, 'rings': 2, 'spr': [5, 3], 'ring_radius': 0.75, 'gap': 0.0, 'rotation': [90.0, 30.0]},
 ]
+
+
+def key_rot_config(rng, i):
+    """ring rotations OUTSIDE [0, 180] degrees (negative, more than half a turn, several turns, exact multiples of the arc /
+    of 180 / of 360) and rings of 1, 2, 3 segments (arcs of a full / half / third of a turn): every keystone then starts or
+    ends beyond the branch cut of arctan2 at least once"""
+    special = [-30.0, 200.0, 330.0, 400.0, -200.0, 360.0, -360.0, 180.0, -180.0, 540.0, -90.0, 270.0, 719.0, -1000.0]
+    sprs = [[6], [1], [2], [3, 5], [4, 8], [1, 2, 3], [7], [12]]
+    spr = sprs[i % len(sprs)]
+    rings = len(spr)
+    rot = [float(special[(i + 3 * j) % len(special)]) if (i + j) % 3 else float(rng.uniform(-720, 720)) for j in range(rings)]
+    n = int([128, 127, 200, 255][i % 4])
+    ccd = float(rng.uniform(1.5, 3.0))
+    rr = float(rng.uniform(0.6, 1.2))
+    gap = float(rng.choice([0.02, 0.05, 0.1]))
+    diam = (ccd / 2 + rings * (rr + gap)) * 2 * float(rng.uniform(1.02, 1.15))
+    return {'n': n, 'diameter': diam, 'ccd': ccd, 'rings': rings, 'spr': spr, 'ring_radius': rr, 'gap': gap, 'rotation': rot}
+
+
+def key_segment_params(cfg):
+    """(rin, rout, lo, hi) of every keystone in construction order.  The radii follow the (translated) recurrence; lo is the
+    start angle `radians(k*arc + rotation) - pi` brought into [-pi, pi] by whole turns and hi = lo + arc -- the precondition under
+    which the (translated, proved) three-branch angular mask IS membership modulo a turn (theorem keystone_wrap_complete)"""
+    rings = cfg['rings']
+    rot = cfg['rotation'] if isinstance(cfg['rotation'], (list, tuple)) else [cfg['rotation']] * rings
+    outer = cfg['ccd'] / 2
+    out = []
+    for nseg, rotation in zip(cfg['spr'], rot):
+        inner = outer + cfg['gap']
+        outer = inner + cfg['ring_radius']
+        arc_per_seg = 360 / nseg
+        arc_rad = np.radians(arc_per_seg)
+        if rotation is None:
+            rotation = arc_per_seg
+        angs = np.radians(np.arange(nseg, dtype=float) * arc_per_seg + rotation) - np.pi
+        for lo in angs:
+            lo = float(lo)
+            while lo > np.pi:
+                lo = lo - 2 * np.pi
+            while lo < -np.pi:
+                lo = lo + 2 * np.pi
+            out.append((inner, outer, lo, float(lo + arc_rad)))
+    return out
+
+
+def key_driver_cases(cfg, x, y, ap, rng, per_seg):
+    """samples of every keystone's ring (boundary samples included) -> driver lines `keyseg` and the real mask values there"""
+    co = _impl()[2]
+    r, t = co.cart_to_polar(x, y)
+    lines, jobs = [], []
+    prm = key_segment_params(cfg)
+    if len(prm) != len(ap.segment_masks):
+        return lines, jobs
+    for k, (rin, rout, lo, hi) in enumerate(prm):
+        e = np.zeros(x.shape, dtype=bool)
+        e[ap.segment_windows[k]] = ap.segment_masks[k]
+        band = np.argwhere((r > rin - 2 * (x[0, 1] - x[0, 0])) & (r < rout + 2 * (x[0, 1] - x[0, 0])))
+        if len(band) == 0:
+            continue
+        pick = band[rng.choice(len(band), size=min(per_seg, len(band)), replace=False)]
+        # plus the samples nearest the two seams and the branch cut
+        d_lo = np.abs(np.angle(np.exp(1j * (t - lo))))
+        d_hi = np.abs(np.angle(np.exp(1j * (t - hi))))
+        ring = (r > rin) & (r <= rout)
+        for dist in (d_lo, d_hi, np.pi - np.abs(t)):
+            w = np.where(ring, dist, np.inf)
+            idx = np.argsort(w, axis=None)[:4]
+            pick = np.concatenate([pick, np.stack(np.unravel_index(idx, x.shape), axis=1)])
+        pts = [(float(r[i, j]), float(t[i, j])) for i, j in pick]
+        lines.append(' '.join(['keyseg', C.f2w(np.pi), C.f2w(rin), C.f2w(rout), C.f2w(lo), C.f2w(hi), str(len(pts))]
+                              + [C.f2w(v) for p_ in pts for v in p_]))
+        jobs.append((k, [(int(i), int(j)) for i, j in pick], [bool(e[i, j]) for i, j in pick], (rin, rout, lo, hi)))
+    return lines, jobs
 
 
 def build_key(cfg):
@@ -748,11 +850,16 @@ def correspondence(ctx):
 
     # ---------------- keystone apertures
     nkey = ctx.scale(12, 240)
-    for i in range(nkey + len(KEY_TOUCH) * ctx.scale(1, 3)):
+    nrot = ctx.scale(10, 160)
+    key_lines, key_jobs = [], []
+    for i in range(nkey + len(KEY_TOUCH) * ctx.scale(1, 3) + nrot):
         # EXACTLY TOUCHING neighbours: gap == 0 on dyadic grids whose samples fall exactly on the shared radii (radii = integer
         # multiples of dx) and on the seams (axes, diagonals); every sample must still belong to at most one segment
-        cfg = key_config(rng, i) if i < nkey else dict(KEY_TOUCH[(i - nkey) % len(KEY_TOUCH)])
-        ctx.case('keystone', cfg, tag=f'rings{cfg["rings"]}' + ('/touching' if cfg['gap'] == 0 else ''))
+        n_touch = len(KEY_TOUCH) * ctx.scale(1, 3)
+        cfg = (key_config(rng, i) if i < nkey else dict(KEY_TOUCH[(i - nkey) % len(KEY_TOUCH)]) if i < nkey + n_touch
+               else key_rot_config(rng, i - nkey - n_touch))
+        ctx.case('keystone', cfg, tag=f'rings{cfg["rings"]}' + ('/touching' if cfg['gap'] == 0 else '')
+                 + ('/rotation-beyond-half-turn' if i >= nkey + n_touch else ''))
         try:
             x, y, ap = build_key(cfg)
         except Exception as ex:
@@ -760,6 +867,10 @@ def correspondence(ctx):
             continue
         for b in key_predicates(cfg, x, y, ap)[:1]:
             ctx.pred_fail('keystone', cfg, b)
+        if i % 2 == 0 or i >= nkey or ctx.widen:
+            kl, kj = key_driver_cases(cfg, x, y, ap, rng, ctx.scale(6, 12))
+            key_lines += kl
+            key_jobs += [(cfg,) + j for j in kj]
         if True:
             try:
                 cart = bool(i % 2)
@@ -768,6 +879,41 @@ def correspondence(ctx):
                     ctx.pred_fail('compose_opd', {**cfg, 'basis': 'xy' if cart else 'zernike'}, b)
             except Exception as ex:
                 ctx.pred_fail('compose_opd', {**cfg, 'basis': 'xy' if i % 2 else 'zernike'}, f'keystone compose raised {type(ex).__name__}: {ex}')
+
+    # ---------------- first-claim ownership of samples in hexagonal apertures against the Lean model `claims claimStep`
+    claim_lines, claim_jobs = [], []
+    budget = ctx.scale(10, 80) * (2 if ctx.widen else 1)
+    for n_, (cfg, x, y, ap, err) in enumerate(hexes):
+        if err is not None or budget <= 0 or max(cfg['shape']) > 130 or not (cfg['gap'] == 0 or n_ % 5 == 0):
+            continue
+        budget -= 1
+        cl, cj = claim_driver_cases(cfg, x, y, ap, rng, ctx.scale(12, 24))
+        claim_lines += cl
+        claim_jobs += [(cfg,) + j for j in cj]
+    if claim_lines:
+        for (cfg, idx, real, amp, cover), reply in zip(claim_jobs, C.lean_driver('C18', claim_lines)):
+            tok = reply.split()
+            model = [ch == '1' for ch in (tok[0] if len(tok) == 2 else '')]
+            mfinal = tok[-1] == '1'
+            ctx.case('hex_claim', {'cfg': cfg, 'index': list(idx)}, nontrivial=cover >= 1,
+                     tag=f'gap{"0" if cfg["gap"] == 0 else "+"}/covered-by-{min(cover, 3)}{"+" if cover >= 3 else ""}')
+            if model != real or mfinal != amp:
+                ctx.disagree('hex_claim', {**cfg, 'index': list(idx)}, {'owners': [k for k, v in enumerate(real) if v], 'amp': amp},
+                             {'owners': [k for k, v in enumerate(model) if v], 'amp': mfinal})
+
+    # ---------------- keystone segment masks, sample for sample and EXACTLY (no margin: same doubles on both sides), against the
+    # Lean model of `arc & ang_mask` with its wrap-around branches
+    if key_lines:
+        rep3 = C.lean_driver('C18', key_lines)
+        for (cfg, k, idx, real, prm), bits in zip(key_jobs, rep3):
+            model = [ch == '1' for ch in bits.strip()]
+            wrap = 'cut' if prm[3] > np.pi else 'plain'
+            ctx.case('keystone_mask', {'cfg': cfg, 'segment': k, 'samples': idx[:3]}, nontrivial=any(real) and not all(real),
+                     tag=f'{wrap}/{"in+out" if any(real) and not all(real) else "one-sided"}')
+            if model != real:
+                j = [a != b for a, b in zip(model, real)].index(True)
+                ctx.disagree('keystone_mask', {**cfg, 'segment': k, 'index': list(idx[j])}, {'in_segment': real[j]},
+                             {'in_segment': model[j], 'rin,rout,lo,hi': list(prm)})
 
     _floors(ctx)
 
@@ -858,6 +1004,11 @@ def _floors(ctx):
     for k in ('compose_opd:keystone/xy', 'compose_opd:keystone/zernike', 'compose_opd:hex/xy', 'compose_opd:hex/zernike'):
         if h.get(k, 0) < 2:
             low[k] = (h.get(k, 0), 2)
+    for k, floor in (('hex_claim:gap0/covered-by-2', 8), ('keystone_mask:cut/in+out', 8), ('keystone_mask:plain/in+out', 30)):
+        if h.get(k, 0) < floor:
+            low[k] = (h.get(k, 0), floor)
+    if sum(v for k, v in h.items() if k.startswith('keystone:') and k.endswith('rotation-beyond-half-turn')) < 8:
+        low['keystone rotation family'] = ('<8', 8)
     if low:
         raise C.ToolError(f'C18 correspondence executed too few cases (got, floor): {low}')
 
@@ -1088,9 +1239,14 @@ def search(ctx, hints):
         cands.append(('geometry_oracle', {'prim': 'rectangle', 'shape': [32, 33], 'width': 0.7, 'height': 0.2, 'angle': ang, 'period': 180.0}))
     cands.append(('geometry_oracle', {'prim': 'offset_circle', 'shape': [32, 33], 'radius': 0.4, 'center': [0.25, -0.1]}))
     cands.append(('keystone', {'n': 128, 'diameter': 8.0, 'ccd': 2.4, 'rings': 2, 'spr': [6, 12], 'ring_radius': 0.9, 'gap': 0.05, 'rotation': None}))
+    for rot, spr in ((-30.0, [6]), (200.0, [6]), (None, [1]), (400.0, [3]), (-200.0, [4])):
+        cands.append(('keystone', {'n': 64, 'diameter': 6.0, 'ccd': 2.0, 'rings': 1, 'spr': spr, 'ring_radius': 1.0, 'gap': 0.1,
+                                   'rotation': None if rot is None else [rot]}))
+    cands.append(('hex_aperture', {'shape': [64, 64], 'dx': 1 / 16, 'rings': 1, 'D': 1.0, 'gap': 0.0, 'rot': 90, 'exclude': []}))
+    alias = {'keystone_mask': 'keystone', 'hex_claim': 'hex_aperture'}
     for d in list(hints.get('pred_failures', [])) + list(hints.get('disagreements', [])):
         if isinstance(d.get('case'), dict):
-            cands.append((d['item'], d['case']))
+            cands.append((alias.get(d['item'], d['item']), d['case']))
     import json
     for item, case in cands:
         case = json.loads(json.dumps(case, default=lambda o: o.tolist() if hasattr(o, 'tolist') else str(o)))
@@ -1121,7 +1277,8 @@ MANIFEST_ENTRY = {
                  'composition onto a caller-supplied non-zero `out` buffer, in one and two steps)',
     'text': ('PARTIAL.  PROPERTY THEOREMS (all inputs): hex_ring(k) (generated from the source loops) has 6k pairwise distinct cells '
              'with q+r+s=0 at cube distance k, rings are mutually disjoint, and by induction over the generated id arithmetic R rings '
-             'give 1+3R(R+1) segments before exclusion; for every pair of distinct lattice cells, D>0, gap>0 and both orientations the '
+             'give 1+3R(R+1) segments before exclusion, and for every exclusion list (repeats / non-existent ids allowed) the model aperture '
+             'keeps exactly the non-excluded ids of 0..3R(R+1), kept + excluded-existing = 1+3R(R+1) (segments_after_exclusion); for every pair of distinct lattice cells, D>0, gap>0 and both orientations the '
              'two closed slab hexagons (centres from the generated hex_to_xy) have no common point; apothem = D/2, clear gap = requested '
              'separation; the convex hull of the six polygon vertices handed to qhull lies inside that slab hexagon (convexity proved), '
              'so with qhull membership trusted the rasterised masks are disjoint; the generated window clamp yields 0<=lo<=hi<=n and, '
@@ -1129,18 +1286,33 @@ MANIFEST_ENTRY = {
              'segment centre for both parities; the model of compose_opd (accumulate tile*mask through windows) is linear in the '
              'coefficients, confined to the segment, and a unit piston gives the indicator; rectangle/ellipse are their inequalities, all '
              'primitives grow with their size parameters and have the stated symmetries; keystone sectors (no-wrap branch) of one ring, '
-             'of different rings and the central disc are pairwise disjoint for every positive gap.  TRANSLATION IDENTITIES (syntactic or '
+             'of different rings and the central disc are pairwise disjoint for every positive gap; the keystone angular mask WITH its two '
+             'wrap-around branches (translated from the source if/elif) holds exactly when t or t+2pi lies in (lo, hi) for every t in '
+             '[-pi, pi] and every interval (keystone_wrap_iff), consecutive keystones round the circle share no angle also through the '
+             'branch cut (keystone_wrap_disjoint), and with the arc start in [-pi, pi] (what the translated while loops establish: '
+             'gen_keystone_start) and an arc of at most a turn the mask is membership modulo 2pi for ANY number of turns '
+             '(keystone_wrap_complete); the start angle radians(k*360/nseg + rotation) - pi, the arc and the default rotation are '
+             'translated (gen_keystone_angles), advance by one arc per keystone with nseg arcs to the turn (keystone_angles_progress), and '
+             'two different keystones of one ring moved by ANY whole turns share no polar angle, for every ring rotation '
+             '(keystone_ring_disjoint: the rotation fix 5a01683 pinned by proof); the translated first-claim step of the hexagonal construction loop (local_mask &= ~mask[window]; '
+             'mask[window] |= local_mask), iterated over ANY list of polygon masks, stores at most one owner per sample, leaves the '
+             'aperture mask equal to the union, and a sample transmits iff exactly one stored mask holds it (claims_invariant / '
+             '_exclusive / _union) -- so "no sample in two segments" for hexagonal apertures, touching ones included, no longer rests on '
+             'qhull.  TRANSLATION IDENTITIES (syntactic or '
              'ring-normalised equalities generated = model, and Bool facts recognised in the AST; no mathematical content of their own): '
-             'gen_hex_dirs, gen_hex_ring, gen_window, gen_centres, gen_keystone, gen_structure, the circle/annulus/vane clauses of '
+             'gen_hex_dirs, gen_hex_ring, gen_window, gen_centres, gen_keystone, gen_keystone_wrap, gen_claim, gen_structure, the circle/annulus/vane clauses of '
              'prims_are_inequalities.  COMPARED ON THE REAL CODE each run: ring walks, ids under exclusion, centres, windows (exact), '
              'local_coords, hexagon masks sample for sample inside the window AND window containment on the full grid, union == amp, '
              'area bound, OPD pistons / linearity / accumulation into a non-zero out buffer with Zernike and Cartesian bases, '
              'composition against the model; keystone apertures sample for sample against an analytic polar oracle (centre disc, every '
              'sector incl. the wrap-around branches, amp = annuli minus the azimuthal-gap strips); primitives sample for sample, '
              'spider(center, rotation, rotation_is_rad), rectangle(any angle, height=None), offset_circle and polygons (3..12 sides) '
-             'against independent analytic oracles.'),
+             'against independent analytic oracles; keystone segment masks EXACTLY (same doubles, no margin, boundary and branch-cut '
+             'samples included) against the Lean model keySegment (driver op keyseg), ring rotations beyond half a turn / negative / '
+             'several turns and rings of 1-3 segments; per-sample ownership of hexagonal apertures (samples covered by 0, 1, 2+ polygons) '
+             'against the Lean model claims (driver op claim).'),
     'note': ('NOT proved: that qhull find_simplex equals hull membership (trusted; boundary samples within 1e-7*rho excluded); the '
-             'wrap-around branch of the keystone angle logic, the spider cut-outs, windows of keystones, count after exclusion, areas '
+             'spider cut-outs, windows of keystones, areas '
              '(compared / numerical bound perimeter*dx only); opd_* theorems speak about the hand model of compose_opd (tie: AST fact + '
              'driver comparison).  Segments lying entirely outside the sampled array (empty window) are out of scope.  Too few '
              'executed cases in any stream is a tool error (floors), not a pass.'),
